@@ -159,6 +159,9 @@ where
         }
         Err(_) => {
             kani::assert(may_fail || budget == 0, "C07.realloc.err_only_when_base_allocator_refuses");
+            // the newest block of an upward arena grows in place whenever the chunk has room for the NEW size counted
+            // from the block's start: such a request needs no memory from anywhere else and therefore never fails
+            kani::assert(!(growing && S::UP && was_last && al(ba, new.align()) && ba + new.size() <= a.geo(ci).content_end), "C13.grow.in_place_growth_with_room_never_fails");
             kani::assert(n_grants == k, "C07.realloc.err_leaks_no_chunk");
             kani::assert(in_any_header(&a, wa) || unsafe { *wp } == w_old, "C07.realloc.err_writes_nothing");
         }
